@@ -2,7 +2,6 @@ package runtime
 
 import (
 	"fmt"
-	"math"
 	"strings"
 
 	"github.com/smarthome-go/homescript/v3/homescript/compiler"
@@ -345,8 +344,7 @@ func (self *Core) runInstruction(instruction compiler.Instruction) *value.VmInte
 		// TODO: improve performance here
 		r := (*self.pop()).(value.ValueInt).Inner
 		l := (*self.pop()).(value.ValueInt).Inner
-		res := math.Pow(float64(l), float64(r))
-		self.push(value.NewValueInt(int64(res)))
+		self.push(value.NewValueInt(value.IntPow(l, r)))
 	case compiler.Opcode_Div:
 		r := *self.pop()
 		l := *self.pop()
